@@ -97,10 +97,13 @@ def fault_classes():
         class SimBaseExc(BaseException):
             pass
 
+        class SimPeerClosed(IOReadOnEOF):     # a device's own way of saying 'no more input': still the library's EOF
+            pass
+
         _fault_classes.update(io=SimDeviceFailure, eof=IOReadOnEOF, broken=BrokenIOUsed, foreign=ForeignError,
                               value=ValueError, kbd=KeyboardInterrupt, baseexc=SimBaseExc,
                               epipe=BrokenPipeError, timeout=TimeoutError, oserr=OSError, runtime=RuntimeError,
-                              memerr=MemoryError, stopiter=StopIteration)
+                              memerr=MemoryError, stopiter=StopIteration, eofsub=SimPeerClosed)
     return _fault_classes
 
 
